@@ -48,6 +48,7 @@ def lastExplicit (n : Bytes) : List Call → Option (List Bytes)
 def bodyOf : Call → Option (BodyKind × Bytes)
   | .body k b => some (k, b)
   | .bodyForm ps => some (.form, formEncode ps)
+  | .bodyReader b => some (.bytes, b)
   | _ => none
 
 /-- the body that is sent is the last one set -/
@@ -112,6 +113,22 @@ def okReq (c : ReqCase) (o : ReqObs) : Bool :=
   | .req n m u hs b =>
     n == 1 && m == upper c.method && u == expectedUrl c && b == expectedBody c.calls && headersOk c.calls hs
 
+def isReader : Call → Bool
+  | .bodyReader _ => true
+  | _ => false
+
+/-- the last body call hands over a reader of unknown length -/
+def lastBodyIsReader : List Call → Bool
+  | [] => false
+  | c :: cs => match lastBody cs with
+    | some _ => lastBodyIsReader cs
+    | none => isReader c
+
+/-- Defect region of the pinned tree (`unknown-length-body-dropped`): the body that is sent comes from a reader whose
+    length is not known in advance and is not empty — `into_protocol_request` sends `vec![]` instead
+    (`is_empty() == Some(false)` is false for `None`). -/
+def droppedBody (calls : List Call) : Bool := lastBodyIsReader calls && expectedBody calls != []
+
 /-- Defect region of the pinned tree: no explicit content type, and the body was replaced by one of another kind —
     `set_body` keeps the content type of the *first* body (`copy_content_type_from_body` only fills a gap). -/
 def staleContentType (calls : List Call) : Bool :=
@@ -136,11 +153,26 @@ def rejectKeyReq (c : ReqCase) (o : ReqObs) : String :=
     if n != 1 then "effect-count"
     else if m != upper c.method then "method-altered"
     else if u != expectedUrl c then "url-altered"
-    else if b != expectedBody c.calls then "body-altered"
+    else if b != expectedBody c.calls then
+      (if droppedBody c.calls && b == [] then "unknown-length-body-dropped" else "body-altered")
     else if headersOkButStale c.calls hs then "stale-content-type"
     else if (namesToCheck c.calls hs).any (fun k => expectedValues c.calls k == [] && valuesFor hs k != []) then
       "header-added"
     else "header-altered"
+
+/-! ### UTF-8, as the standard defines it: the encoding of a sequence of Unicode scalar values -/
+
+/-- Unicode scalar values: code points up to U+10FFFF except the surrogates U+D800..U+DFFF -/
+def isScalar (c : Nat) : Bool := c < 55296 || (57344 ≤ c && c < 1114112)
+
+/-- UTF-8 encoding of one scalar value (Unicode 15 §3.9, table 3-6) -/
+def encodeScalar (c : Nat) : Bytes :=
+  if c < 128 then [c]
+  else if c < 2048 then [192 + c / 64, 128 + c % 64]
+  else if c < 65536 then [224 + c / 4096, 128 + c / 64 % 64, 128 + c % 64]
+  else [240 + c / 262144, 128 + c / 4096 % 64, 128 + c / 64 % 64, 128 + c % 64]
+
+def encodeUtf8 (cs : List Nat) : Bytes := cs.flatMap encodeScalar
 
 /-! ### C15 — the outcome the app must get -/
 
